@@ -629,6 +629,16 @@ theorem ratSum_counts (g : ℕ → Rat) (nr : ℕ) : ∀ (sels : List ℕ), (∀
     rw [ratSum_map_add, ratSum_range_indicator, ih hrest]
     simp [hs0, ratSum_cons]
 
+theorem ratSum_indicator_count (sels : List ℕ) (r : ℕ) :
+    ratSum (sels.map fun s => if s = r then (1 : Rat) else 0) = ((sels.filter (· = r)).length : Rat) := by
+  induction sels with
+  | nil => simp [ratSum_nil]
+  | cons s rest ih =>
+    simp only [List.map_cons, ratSum_cons, ih, List.filter_cons]
+    by_cases h : s = r
+    · simp [h]; ring
+    · simp [h]
+
 theorem zip_map_range'_aux {β : Type} (h : ℕ → β) (d : Int) : ∀ (pw : List Int) (off : ℕ),
     List.zip ((List.range' off pw.length).map h) pw
       = (List.range' off pw.length).map fun r => (h r, pw.getD (r - off) d) := by
@@ -835,5 +845,149 @@ theorem effIn_of_reaches (p : Prog) (hwf : WF p) (oe : Nat → Rat) (i j : Nat) 
   have ha := (hwf i hi hne).1
   rw [effIn_eq, setBy_consumer p hwf i hi hne]
   exact (feats_of_reaches p hwf oe _ j m r (by omega)).2
+
+/-! ### per-layer search: nothing is pruned, the calculators deliver the static widths -/
+
+/-- static width of the tensor a consumer of the node reads -/
+def nodeWidth (ws : List Nat) (nd : Node) : Nat :=
+  match nd.kind with
+  | .input => nd.cin
+  | .conv | .dw | .linear => nd.cout
+  | .flatten => nd.mult * ws.getD nd.a 0
+  | _ => ws.getD nd.a 0
+
+def widths (p : Prog) : List Nat := scan nodeWidth p
+
+/-- shape consistency of the layers: `in_channels / in_features` is the width of the tensor consumed;
+a depthwise layer keeps the width -/
+def Typed (p : Prog) : Prop :=
+  ∀ i, i < p.length →
+    ((p.nd i).kind.isLayer = true → (p.nd i).cin = (widths p).getD (p.nd i).a 0) ∧
+    ((p.nd i).kind = .dw → (p.nd i).cout = (p.nd i).cin)
+
+theorem widths_length (p : Prog) : (widths p).length = p.length := scan_length _ _
+
+theorem widths_getD (p : Prog) (j : Nat) (h : j < p.length) :
+    (widths p).getD j 0 = nodeWidth ((widths p).take j) (p.nd j) := by
+  unfold widths Prog.nd
+  exact scan_getD nodeWidth p j h 0 {}
+
+theorem setByOf_idx_le (p : Prog) (hwf : WF p) : ∀ (y : Nat), y < p.length → (setByOf p y).idx ≤ y := by
+  intro y
+  induction y using Nat.strong_induction_on with
+  | _ y ih =>
+    intro hy
+    unfold setByOf
+    cases hk : (p.nd y).kind <;> simp only [Ref.idx, le_refl]
+    all_goals
+      have hne : (p.nd y).kind ≠ .input := by rw [hk]; decide
+      have ha := (hwf y hy hne).1
+      rw [setBy_consumer p hwf y hy hne]
+      exact le_trans (ih _ ha (by omega)) (le_of_lt ha)
+
+theorem feats_static (p : Prog) (hwf : WF p) (ht : Typed p) :
+    ∀ (y : Nat), y < p.length →
+      (feats p (fun j => ((p.nd j).cout : Rat))).getD y 0 = ((widths p).getD y 0 : Rat) ∧
+      (feats p (fun j => ((p.nd j).cout : Rat))).getD (setByOf p y).idx 0 = ((widths p).getD y 0 : Rat) := by
+  intro y
+  induction y using Nat.strong_induction_on with
+  | _ y ih =>
+    intro hy
+    have hlenF : ((feats p (fun j => ((p.nd j).cout : Rat))).take y).length = y := by
+      rw [List.length_take, feats_length]; omega
+    have hlenW : ((widths p).take y).length = y := by
+      rw [List.length_take, widths_length]; omega
+    -- facts about the first input of a node that has one
+    have harg : (p.nd y).kind ≠ .input → (p.nd y).a < y ∧
+        (feats p (fun j => ((p.nd j).cout : Rat))).getD (p.nd y).a 0 = ((widths p).getD (p.nd y).a 0 : Rat) ∧
+        (feats p (fun j => ((p.nd j).cout : Rat))).getD (setByOf p (p.nd y).a).idx 0
+          = ((widths p).getD (p.nd y).a 0 : Rat) ∧
+        (setBy p).getD y (.src 0) = setByOf p (p.nd y).a := by
+      intro hne
+      have ha := (hwf y hy hne).1
+      obtain ⟨h1, h2⟩ := ih _ ha (by omega)
+      exact ⟨ha, h1, h2, setBy_consumer p hwf y hy hne⟩
+    cases hk : (p.nd y).kind
+    case input =>
+      have hF : (feats p (fun j => ((p.nd j).cout : Rat))).getD y 0 = ((widths p).getD y 0 : Rat) := by
+        rw [feats_getD p _ y hy, widths_getD p y hy]; simp [nodeFeat, nodeWidth, hk]
+      refine ⟨hF, ?_⟩
+      simp only [setByOf, hk, Ref.idx]; exact hF
+    case conv =>
+      have hF : (feats p (fun j => ((p.nd j).cout : Rat))).getD y 0 = ((widths p).getD y 0 : Rat) := by
+        rw [feats_getD p _ y hy, widths_getD p y hy]; simp [nodeFeat, nodeWidth, hk, hlenF]
+      refine ⟨hF, ?_⟩
+      simp only [setByOf, hk, Ref.idx]; exact hF
+    case linear =>
+      have hF : (feats p (fun j => ((p.nd j).cout : Rat))).getD y 0 = ((widths p).getD y 0 : Rat) := by
+        rw [feats_getD p _ y hy, widths_getD p y hy]; simp [nodeFeat, nodeWidth, hk, hlenF]
+      refine ⟨hF, ?_⟩
+      simp only [setByOf, hk, Ref.idx]; exact hF
+    case dw =>
+      obtain ⟨ha, _, hG, hsb⟩ := harg (by rw [hk]; decide)
+      have hW : (widths p).getD y 0 = (p.nd y).cout := by
+        rw [widths_getD p y hy]; simp [nodeWidth, hk]
+      have hF : (feats p (fun j => ((p.nd j).cout : Rat))).getD y 0 = ((widths p).getD y 0 : Rat) := by
+        rw [feats_getD p _ y hy, hW]; simp [nodeFeat, hk, hlenF]
+      refine ⟨hF, ?_⟩
+      have hs : setByOf p y = setByOf p (p.nd y).a := by
+        rw [← hsb]; simp only [setByOf, hk]
+      obtain ⟨t1, t2⟩ := ht y hy
+      rw [hs, hG, hW, t2 hk, t1 (by rw [hk]; rfl)]
+    case flatten =>
+      obtain ⟨ha, hFa, _, _⟩ := harg (by rw [hk]; decide)
+      have hF : (feats p (fun j => ((p.nd j).cout : Rat))).getD y 0 = ((widths p).getD y 0 : Rat) := by
+        rw [feats_getD p _ y hy, widths_getD p y hy]
+        simp only [nodeFeat, nodeWidth, hk]
+        rw [getD_take_lt _ _ _ _ ha, getD_take_lt _ _ _ _ ha, hFa]; push_cast; ring
+      refine ⟨hF, ?_⟩
+      simp only [setByOf, hk, Ref.idx]; exact hF
+    case add =>
+      obtain ⟨ha, _, hG, hsb⟩ := harg (by rw [hk]; decide)
+      have hW : (widths p).getD y 0 = (widths p).getD (p.nd y).a 0 := by
+        rw [widths_getD p y hy]; simp only [nodeWidth, hk]; rw [getD_take_lt _ _ _ _ ha]
+      have hidx : (setByOf p (p.nd y).a).idx < y :=
+        lt_of_le_of_lt (setByOf_idx_le p hwf _ (by omega)) ha
+      have hF : (feats p (fun j => ((p.nd j).cout : Rat))).getD y 0 = ((widths p).getD y 0 : Rat) := by
+        rw [feats_getD p _ y hy, hW, ← hG]
+        simp only [nodeFeat, hk, hlenF]
+        rw [hsb]
+        cases hr : setByOf p (p.nd y).a <;> simp only [hr, Ref.idx] at hidx ⊢ <;>
+          rw [getD_take_lt _ _ _ _ hidx]
+      refine ⟨hF, ?_⟩
+      have hs : setByOf p y = setByOf p (p.nd y).a := by
+        rw [← hsb]; simp only [setByOf, hk]
+      rw [hs, hG, hW]
+    case pass =>
+      obtain ⟨ha, hFa, hG, hsb⟩ := harg (by rw [hk]; decide)
+      have hW : (widths p).getD y 0 = (widths p).getD (p.nd y).a 0 := by
+        rw [widths_getD p y hy]; simp only [nodeWidth, hk]; rw [getD_take_lt _ _ _ _ ha]
+      have hF : (feats p (fun j => ((p.nd j).cout : Rat))).getD y 0 = ((widths p).getD y 0 : Rat) := by
+        rw [feats_getD p _ y hy, hW, ← hFa]
+        simp only [nodeFeat, hk]; rw [getD_take_lt _ _ _ _ ha]
+      refine ⟨hF, ?_⟩
+      have hs : setByOf p y = setByOf p (p.nd y).a := by
+        rw [← hsb]; simp only [setByOf, hk]
+      rw [hs, hG, hW]
+    case output =>
+      obtain ⟨ha, hFa, hG, hsb⟩ := harg (by rw [hk]; decide)
+      have hW : (widths p).getD y 0 = (widths p).getD (p.nd y).a 0 := by
+        rw [widths_getD p y hy]; simp only [nodeWidth, hk]; rw [getD_take_lt _ _ _ _ ha]
+      have hF : (feats p (fun j => ((p.nd j).cout : Rat))).getD y 0 = ((widths p).getD y 0 : Rat) := by
+        rw [feats_getD p _ y hy, hW, ← hFa]
+        simp only [nodeFeat, hk]; rw [getD_take_lt _ _ _ _ ha]
+      refine ⟨hF, ?_⟩
+      have hs : setByOf p y = setByOf p (p.nd y).a := by
+        rw [← hsb]; simp only [setByOf, hk]
+      rw [hs, hG, hW]
+
+/-- per-layer search: a layer is shown its static `in_channels / in_features` -/
+theorem effIn_static (p : Prog) (hwf : WF p) (ht : Typed p) (i : Nat) (hi : i < p.length)
+    (hl : (p.nd i).kind.isLayer = true) :
+    effIn p (fun j => ((p.nd j).cout : Rat)) i = ((p.nd i).cin : Rat) := by
+  have hne : (p.nd i).kind ≠ .input := by
+    intro h; rw [h] at hl; simp [Kind.isLayer] at hl
+  have ha := (hwf i hi hne).1
+  rw [effIn_eq, setBy_consumer p hwf i hi hne, (feats_static p hwf ht _ (by omega)).2, (ht i hi).1 hl]
 
 end PlinioVerif.MPS
